@@ -84,6 +84,65 @@ func runHashmapEq(c *core.Ctx) {
 		if n == 0 {
 			c.Lost("hashmap.HashMap.Set:overwrite", "no overwrite of an entry's Value found")
 		}
+		// every call stores the pair: each normal exit is preceded by the overwrite of an equal key's entry, or by appending the
+		// entry to its bucket and the key to the key list
+		mF, keysF := an.Field(t, "m"), an.Field(t, "keys")
+		isOverwrite := func(a ast.Node) bool {
+			as, ok := a.(*ast.AssignStmt)
+			if !ok || len(as.Lhs) != 1 {
+				return false
+			}
+			sel, ok := an.Unparen(as.Lhs[0]).(*ast.SelectorExpr)
+			return ok && sel.Sel.Name == "Value"
+		}
+		appendsTo := func(f *types.Var) func(ast.Node) bool {
+			return func(a ast.Node) bool {
+				as, ok := a.(*ast.AssignStmt)
+				if !ok || len(as.Lhs) != 1 || len(as.Rhs) != 1 {
+					return false
+				}
+				lhs := an.Unparen(as.Lhs[0])
+				if ix, isIx := lhs.(*ast.IndexExpr); isIx {
+					lhs = ix.X
+				}
+				if an.SelectedField(info, lhs) != f {
+					return false
+				}
+				call, ok := an.Unparen(as.Rhs[0]).(*ast.CallExpr)
+				return ok && an.IsBuiltin(info, call, "append")
+			}
+		}
+		if mF != nil && keysF != nil {
+			okB, _ := g.MustPass(nil, func(a ast.Node) bool { return isOverwrite(a) || appendsTo(mF)(a) }, nil)
+			okK, _ := g.MustPass(nil, func(a ast.Node) bool { return isOverwrite(a) || appendsTo(keysF)(a) }, nil)
+			c.Check(okB, "hashmap.HashMap.Set:stores-entry", fn.Pos(), "every path overwrites the equal key's entry or appends a new entry to the bucket",
+				"Set can return without storing the value: the write to a map resource element / CRDT table entry is silently lost")
+			c.Check(okK, "hashmap.HashMap.Set:records-key", fn.Pos(), "every path that adds an entry also adds its key to the key list",
+				"Set can add an entry without recording its key: Keys() omits it, so map resources never commit, abort or close that element")
+		}
+	}
+	if fn := mustMethod(c, e, an.PkgHashmap, "HashMap", "Clear"); fn != nil {
+		info := fn.Pkg.Info
+		g := e.Graph(fn)
+		keysF, mF := an.Field(t, "keys"), an.Field(t, "m")
+		okK, _ := g.MustPass(nil, func(a ast.Node) bool {
+			rhs, isSet := fieldIsAssigned(info, a, keysF)
+			return isSet && rhs != nil && (isNilIdent(info, rhs) || func() bool { _, isSl := an.Unparen(rhs).(*ast.SliceExpr); return isSl }())
+		}, nil)
+		empties := false
+		ast.Inspect(fn.Body(), func(m ast.Node) bool {
+			if call, ok := m.(*ast.CallExpr); ok {
+				if (an.IsBuiltin(info, call, "delete") || an.IsBuiltin(info, call, "clear")) && len(call.Args) >= 1 && an.SelectedField(info, call.Args[0]) == mF {
+					empties = true
+				}
+			}
+			if rhs, isSet := fieldIsAssigned(info, m, mF); isSet && rhs != nil {
+				empties = true
+			}
+			return true
+		})
+		c.Check(okK && empties, "hashmap.HashMap.Clear:empties-keys-and-buckets", fn.Pos(), "Clear empties both the buckets and the key list",
+			"Clear leaves keys or entries behind: the dirty set of a map resource keeps elements of earlier sections, which are then committed/aborted again")
 	}
 }
 
